@@ -62,8 +62,16 @@ def oracle(case, out):
     refused = 0          # coap_add_data_large_* returned 0: explicit refusal at the API
     fin = None
     end = None
+    cli_state = (0, 0)   # (lg_crcv, lg_xmit) of the client session, from the ST events
+    rx_times = {}
+    last_rx = None
     for f in ev:
         k = f[0]
+        if k == "ST":
+            cli_state = (int(f[3]), int(f[4]))
+        if k == "RX":
+            rx_times[f[1]] = rx_times.get(f[1], 0) + 1
+            last_rx = f[1]
         if k in ("TXc", "TXs"):
             if f[2] == "UNPARSEABLE":
                 bad.append("unparseable datagram sent: " + ":".join(f))
@@ -97,7 +105,13 @@ def oracle(case, out):
         elif k == "HC":
             code = int(f[1])
             if f[3] != "T":
-                bad.append("O3 response handler saw token %s, the application's is %s" % (f[2], case.tok))
+                # after the transfer concluded (final response or NACK seen by the application)
+                # and the client released its lg_xmit/lg_crcv: a late reply caused by a network
+                # duplicate can no longer be mapped to the application's token
+                stale = cli_state == (0, 0) and (success + errors + nacks) > 0 and not case.lossless()
+                bad.append("%s response handler saw token %s, the application's is %s" %
+                           ("O3STALE" if stale else "O3", f[2], case.tok))
+                continue
             if code >> 5 == 2:
                 if case.dir == "b2":
                     off, total, ln, eq = int(f[4]), int(f[5]), int(f[6]), f[8]
@@ -113,6 +127,10 @@ def oracle(case, out):
             nacks += 1
             if f[3] == "F":
                 bad.append("O3 nack handler saw token %s, the application's is %s" % (f[2], case.tok))
+        elif k == "EV" and f[2] == "3001" and not single_rx:
+            # COAP_EVENT_PARTIAL_BLOCK: the application is told that the pieces delivered so far
+            # are to be discarded (the body changed / the transfer restarts)
+            deliveries = []
         elif k == "FIN":
             fin = f
         elif k == "END":
